@@ -24,8 +24,26 @@ def run(ck):
     if mism is not None:
         ck.obligation("correspondence leaf encoders (threshold bins, traffic / link bands, clamps) = Model.Obs on %d values" % len(coq_in), "correspondence",
                       not mism, "" if not mism else "first mismatch: case %d model=%s impl=%s input=%s" % (mism[0][0], mism[0][1], coq_in[mism[0][0]][1], coq_in[mism[0][0]][0]))
+    # an attacker that starts at once and often, so that keyword frames are captured within the walk (NMNE leaves non-zero)
+    import copy
+    early = copy.deepcopy(world.load_cfg(world.PKG + "/data_manipulation.yaml"))
+    for a in early["agents"]:
+        if a.get("type") == "red-database-corrupting-agent":
+            a["agent_settings"].update({"start_step": 2, "frequency": 2, "variance": 0})
+    obswalk.walk(ck, "pkg/data_manipulation.yaml (attacker from step 2, every 2 steps)", early, steps=ck.n(24, 60), membership=False, truth=True, episodes=2, idle=0.85)
     for name, cfg in c02.scenarios(ck):
         obswalk.walk(ck, name, cfg, steps=ck.n(30, 90), membership=False, truth=True, episodes=2)
+    cases = list(obswalk.NmneMon.cases)
+    del obswalk.NmneMon.cases[:]
+    ck.traces += len(cases)
+    try:
+        mism = coq_cases(ck, "From PV Require Import Model.Obs Model.Nmne.", "Nmne.run_case", cases, name="c09n", chunk=200)
+    except RuntimeError as e:
+        ck.broken("correspondence Model.Nmne.run_case", str(e))
+        mism = None
+    if mism is not None:
+        ck.obligation("correspondence NMNE leaves (capture events and observations per interface) = Model.Nmne on %d interface histories" % len(cases), "correspondence",
+                      not mism, "" if not mism else "first mismatch: case %d model=%s impl=%s input=%s" % (mism[0][0], mism[0][1], cases[mism[0][0]][1], cases[mism[0][0]][0][:600]))
     ck.nontrivial.update({"truth-%d" % i for i in range(min(ck.dist.get("truth-checks", 0), 100000))})
 
 
